@@ -5,7 +5,27 @@ CFG = {
     "theorems": [
         "Leptos.Owner.C08_pass_terminates",
         "Leptos.Owner.C08_cleanup_never_twice",
+        "Leptos.Owner.C08_cleanups_exactly_once",
+        "Leptos.Owner.C08_cleanups_exactly_once_drop",
+        "Leptos.Owner.C08_no_other_cleanup",
+        "Leptos.Owner.C08_descendants_first",
+        "Leptos.Owner.C08_descendants_first_drop",
+        "Leptos.Owner.C08_handles_invalidated",
+        "Leptos.Owner.C08_handles_invalidated_drop",
         "Leptos.Owner.C08_stale_key_never_resolves",
+        "Leptos.Owner.C08_frame_owners",
+        "Leptos.Owner.C08_frame_items",
+        "Leptos.Owner.C08_frame_owners_drop",
+        "Leptos.Owner.C08_frame_items_drop",
+        "Leptos.Owner.C08_context_nearest",
+        "Leptos.Owner.C08_context_survives_cleanup",
+        "Leptos.Owner.C08_context_fresh_full_false",
+        "Leptos.Owner.C08_context_fresh_partial",
+        "Leptos.Owner.C08_no_leak",
+        "Leptos.Owner.C08_unowned_item_leaks",
+        "Leptos.Owner.C08_no_leak_full_false",
+        "Leptos.Owner.C08_detached_child_example",
+        "Leptos.Owner.reachable_runOps",
     ],
     "harness_pkg": "hx-c08",
     "harness_bin": "c08",
